@@ -40,7 +40,7 @@ def run_case(sc, idx, keys, env, plan=None, ext_sigint_after=None, timeout=40, c
     argv = []
     for i, k in enumerate(keys):
         name = "s%d.%s" % (i, EXT[k])
-        shutil.copyfile(os.path.join(REPO, SRC[k]), os.path.join(d, name))
+        shutil.copyfile(SRC[k] if os.path.isabs(SRC[k]) else os.path.join(REPO, SRC[k]), os.path.join(d, name))
         argv.append(name)
     t_sig = None
     if close_after is not None:
@@ -226,17 +226,35 @@ def signal_points(trace, per_point):
     return pts
 
 
+def make_tars(sc):
+    """journal / event log as members of a .tar (unpacked through a temp file like the compressed forms)"""
+    import gzip
+    import tarfile
+    from . import gen
+    g = os.path.join(sc, "gen")
+    os.makedirs(g, exist_ok=True)
+    j = gzip.decompress(open(os.path.join(REPO, SRC["jgz"]), "rb").read())
+    e = gzip.decompress(open(os.path.join(REPO, SRC["egz"]), "rb").read())
+    for key, member, data in (("jtar", "user-1000.journal", j), ("etar", "Kernel-PnP.evtx", e)):
+        p = os.path.join(g, key + ".tar")
+        with open(p, "wb") as f:
+            f.write(gen.tar_bytes([(member, data)], fmt=tarfile.GNU_FORMAT))
+        SRC[key] = p
+        EXT[key] = "tar"
+
+
 def run(pid, tier, seed):
     rep = Reporter(pid, tier, seed, "model_checking")
     rng = random.Random(seed * 104729 + 18)
     common.build_s4()
     with Scratch(pid) as sc:
+        make_tars(sc)
         dropfirst, free1 = measure_dropfirst(sc)
         states, trans, details, predictions = tlc_part(sc, rep, tier, dropfirst)
 
-        combos = [["jgz"], ["jgz", "jbz2"], ["egz"], ["jxz", "egz", "jlz4"]]
+        combos = [["jgz"], ["jgz", "jbz2"], ["etar"], ["jxz", "egz", "jlz4"], ["egz"], ["jtar", "etar"]]
         if tier == "thorough":
-            combos += [["jbz2"], ["jlz4", "jxz"], ["exz", "jgz"], ["Jgz"], ["Jgz", "jgz"], ["jgz", "jbz2", "jxz", "jlz4"]]
+            combos += [["jtar"], ["jtar", "jgz"], ["jbz2"], ["jlz4", "jxz"], ["exz", "jgz"], ["Jgz"], ["Jgz", "jgz"], ["jgz", "jbz2", "jxz", "jlz4"]]
         jobs = []
         # (a) normal exits: free, seeded, worker held right after its summary was sent / before it returns
         for keys in combos:
